@@ -13,17 +13,19 @@ import (
 )
 
 type Clause struct {
-	Kind   string // requires ensures invariant assertcall
-	Label  string
-	Props  []string
-	Local  bool     // proved for the function itself, not exported to its callers ("local" inside the tag brackets)
-	Use    []string // proof hint "use:<label>": of the entry data-structure invariants, only these (and the clause itself) are assumed when this invariant is re-established
-	Src    string
-	Expr   *SExpr
-	Loop   int
-	Callee string
-	File   string
-	Line   int
+	Kind  string // requires ensures invariant assertcall
+	Label string
+	Props []string
+	Local bool // proved for the function itself, not exported to its callers ("local" inside the tag brackets)
+	// "assumed" inside the tag brackets: a postcondition exported to callers but NOT proved for the function (listed in the evidence as an unchecked assumption)
+	Assumed bool
+	Use     []string // proof hint "use:<label>": of the entry data-structure invariants, only these (and the clause itself) are assumed when this invariant is re-established
+	Src     string
+	Expr    *SExpr
+	Loop    int
+	Callee  string
+	File    string
+	Line    int
 }
 
 type GhostDecl struct {
@@ -61,7 +63,10 @@ type FuncSpec struct {
 	ParamNames  []string
 	ResultNames []string
 	Requires    []*Clause
-	Ensures     []*Clause
+	// assumptions of the verified function that its callers are NOT asked to establish (environment facts such as
+	// "a 64-bit counter does not wrap"): unchecked, listed in the evidence
+	Assumes []*Clause
+	Ensures []*Clause
 	// data-structure invariants of the receiver: assumed at entry, proved at exit; NOT re-proved at call sites
 	// (sound provided every writer of the fields they mention is a function that carries the same invariant:
 	// the encapsulation audit of the property that uses them)
@@ -83,6 +88,12 @@ type FuncSpec struct {
 	File        string
 	Line        int
 	NoInline    bool
+	// fntype contracts: every function of the module whose signature is identical to the function type is verified
+	// against this contract ("implementations by-signature")
+	ImplBySig bool
+	// "properties C07 C10": the properties whose runs check this spec's obligations that carry no tag of their own
+	// (untagged clauses are assumed in every run; without this line their obligations go to the safety properties)
+	HomeProps []string
 }
 
 type GlobalDecl struct {
@@ -106,6 +117,9 @@ type Contracts struct {
 	Order    []string
 	Errors   []string
 	TypeInvs []TypeInv
+	// fields declared immutable after construction ("Type.field"): kept by a modifies-* havoc; justified by the
+	// syntactic obligation immutable-fields (written only on an object the writing function has just allocated)
+	Immutable []string
 }
 
 // TypeInv is a type invariant: assumed whenever the field / map value is read,
@@ -258,6 +272,12 @@ func (cs *Contracts) parseFile(file string) {
 				g.Val = fs[2]
 			}
 			cs.Globals[g.Name] = g
+		case "immutable":
+			for _, f := range strings.Split(rest, ",") {
+				if f = strings.TrimSpace(f); f != "" {
+					cs.Immutable = append(cs.Immutable, f)
+				}
+			}
 		case "typeinv":
 			// typeinv field <Type.field> nonnil | typeinv mapval <Type.field[.elem...]> nonnil
 			//   typeinv <kind> <path> : <expr over v>     kind = field | fieldstore | mapval | cellval
@@ -356,7 +376,7 @@ func (cs *Contracts) parseFile(file string) {
 
 func (cs *Contracts) clause(cur *FuncSpec, word, rest, file string, line int) {
 	switch word {
-	case "requires", "ensures", "invariant":
+	case "requires", "ensures", "invariant", "assume":
 		label, props, body, ok := parseLabelProps(rest)
 		if !ok {
 			cs.errf(file, line, "%s label [props]: expr", word)
@@ -373,6 +393,8 @@ func (cs *Contracts) clause(cur *FuncSpec, word, rest, file string, line int) {
 			switch {
 			case pr == "local":
 				cl.Local = true
+			case pr == "assumed":
+				cl.Assumed = true
 			case strings.HasPrefix(pr, "use:"):
 				cl.Use = append(cl.Use, strings.TrimPrefix(pr, "use:"))
 			default:
@@ -385,6 +407,8 @@ func (cs *Contracts) clause(cur *FuncSpec, word, rest, file string, line int) {
 			cur.Requires = append(cur.Requires, cl)
 		case "ensures":
 			cur.Ensures = append(cur.Ensures, cl)
+		case "assume":
+			cur.Assumes = append(cur.Assumes, cl)
 		default:
 			cur.Invariants = append(cur.Invariants, cl)
 		}
@@ -544,6 +568,14 @@ func (cs *Contracts) clause(cur *FuncSpec, word, rest, file string, line int) {
 		}
 	case "safety":
 		cur.SafetyProps = append(cur.SafetyProps, strings.FieldsFunc(strings.Trim(rest, "[]"), func(r rune) bool { return r == ' ' || r == ',' })...)
+	case "properties":
+		cur.HomeProps = append(cur.HomeProps, strings.FieldsFunc(strings.Trim(rest, "[]"), func(r rune) bool { return r == ' ' || r == ',' })...)
+	case "implementations":
+		if strings.TrimSpace(rest) != "by-signature" {
+			cs.errf(file, line, "implementations by-signature")
+			return
+		}
+		cur.ImplBySig = true
 	case "trusted":
 		cur.Trusted = true
 	case "verify":
@@ -563,7 +595,7 @@ func (p *Program) expandHeaps(names []string) ([]string, error) {
 	for _, n := range names {
 		n = normType(n)
 		switch {
-		case strings.HasPrefix(n, "cell:"), strings.HasPrefix(n, "ghost:"):
+		case strings.HasPrefix(n, "cell:"), strings.HasPrefix(n, "ghost:"), strings.HasPrefix(n, "fld:"):
 			out = append(out, n)
 		case strings.HasPrefix(n, "map:"):
 			out = append(out, n, "mapdom:"+strings.TrimPrefix(n, "map:"))
@@ -582,7 +614,8 @@ func (p *Program) expandHeaps(names []string) ([]string, error) {
 			// pkg.Type.field.path
 			parts := strings.Split(n, ".")
 			ok := false
-			for i := len(parts) - 1; i >= 1; i-- {
+			// shortest type prefix first: "vm.EVM.Config.Tracer" is field Config.Tracer of vm.EVM, not Tracer of vm.Config
+			for i := 1; i <= len(parts)-1; i++ {
 				tn := strings.Join(parts[:i], ".")
 				t := p.resolveType(tn, nil)
 				if t != nil && isStruct(t) {
